@@ -18,7 +18,7 @@ import build as B
 
 EVID = os.path.join(VERIF, "evidence")
 REPLAYS = os.path.join(VERIF, "replays")
-KNOWN = os.path.join(VERIF, "known_findings.json")
+KNOWN = os.environ.get("VERIF_KNOWN_FINDINGS", os.path.join(VERIF, "known_findings.json"))  # the override exists only to test the mechanism
 NPROC = min(16, os.cpu_count() or 4)
 
 # which build flavours decide which property; "profile" = workload generator profile
@@ -739,8 +739,9 @@ def main():
                     continue
                 kn = [e for e in known if known_match(e, prop, ff, small)]
                 if kn:
+                    if not any(k[0] is kn[0] for k in known_hits):
+                        log("KNOWN-FINDING: property=%s %s" % (prop, kn[0].get("what", ff["cls"])))
                     known_hits.append((kn[0], path))
-                    log("KNOWN-FINDING: property=%s %s" % (prop, kn[0].get("what", ff["cls"])))
                     os.unlink(path)
                 else:
                     log("violation: %s [%s] %s" % (ff["cls"], sw.flavour, small["report"]))
